@@ -58,6 +58,11 @@ fn scripts(quick: bool) -> Vec<(Vec<(usize, Step)>, usize)> {
     // set / sync / set from one remote with a pure observer (sync served with a pending change)
     out.push((vec![(1, link("v")), (0, link("v")), (0, cmd("v", "31")), (0, sync("v")), (0, cmd("v", "32"))], 2));
     out.push((vec![(1, link("m")), (0, cmd("m", "@update(key:1) 1")), (0, sync("m")), (0, cmd("m", "@update(key:2) 2")), (0, cmd("m", "@remove(key:1)"))], 2));
+    // a link request repeated while the answer to a sync is still queued for a slow remote
+    out.push((sequential(&[vec![link("m"), act(&[&a1, &a2, &upd(3, 3)]), sync("m"), link("m"), act(&[&upd(1, 5)])]]), 1));
+    out.push((sequential(&[vec![sync("m"), link("m"), act(&[&a1, &a2]), sync("m"), link("m")]]), 1));
+    out.push((sequential(&[vec![link("v"), cmd("v", "1"), sync("v"), link("v"), cmd("v", "2")]]), 1));
+    out.push((vec![(0, link("m")), (1, link("m")), (1, act(&[&a1, &a2])), (0, sync("m")), (0, link("m")), (1, act(&[&a3])), (0, sync("m"))], 2));
     // two concurrent syncers
     out.push((sequential(&[vec![link("m"), act(&[&a1, &a2])], vec![sync("m")], vec![sync("m")]]), 3));
     for (i, s) in interleavings(&[pending.clone(), vec![sync("m")], vec![sync("m")]]).into_iter().enumerate() {
@@ -74,6 +79,8 @@ fn main() {
     if let Some(r) = ctx.replay_request() {
         if r["leg"].as_str().map(|l| l.starts_with("mapq")).unwrap_or(false) {
             mapq::replay(&ctx, r);
+        } else if r["leg"].as_str().map(|l| l.starts_with("uplinks")).unwrap_or(false) {
+            asys::uplinks::replay(&ctx, r);
         } else {
             replay(&ctx, r);
         }
@@ -81,6 +88,9 @@ fn main() {
     }
     let quick = ctx.quick();
     mapq::run_sync(&ctx);
+    // the runtime's per-remote scheduler: every sync request is answered, what was queued for the
+    // sync is delivered whatever other requests arrive in between
+    asys::uplinks::run(&ctx, "uplinks-bfs-sync", if quick { 7 } else { 8 }, |m| m.contains("sync") || m.contains("drain_delivers_latest") || m.contains("terminates") || m.contains("one_writer"));
     let sc = scripts(quick);
     let modes = [Mode::Eager, Mode::Burst, Mode::SlowRead];
     // the scripts with a tiny lane <-> runtime channel first (lane events stay queued inside the lane)
